@@ -25,7 +25,7 @@ struct Buf {
         release();
         bytes = nbytes;
         sparse = nbytes >= ((size_t)1 << 26);   // huge extents (strides >= 2^32): a sparse MAP_NORESERVE mapping, only touched pages exist
-        if (SAN && !sparse) { base = malloc(nbytes ? nbytes : 1); p = (char *)base; maplen = 0; return; }
+        if (SAN && !sparse) { base = malloc(nbytes + slack ? nbytes + slack : 1); p = (char *)base + slack; maplen = 0; return; } // (slack: deliberate misalignment of the start; the end stays exact)
         size_t pg = (size_t)sysconf(_SC_PAGESIZE);
         size_t len = ((nbytes + slack + pg - 1) / pg) * pg; if (len == 0) len = pg;
         base = mmap(nullptr, len + pg, PROT_READ | PROT_WRITE, MAP_PRIVATE | MAP_ANONYMOUS | (sparse ? MAP_NORESERVE : 0), -1, 0);
